@@ -5,20 +5,6 @@ import reprlib
 from typing import TypeVar, Callable, Any, Iterable, List  # pylint: disable=unused-import
 
 
-def _in_reproducible_order(items: Iterable[Any]) -> List[Any]:
-    """Order the items of a set so that the order does not depend on the hash seed of the interpreter."""
-    try:
-        return sorted(items)
-    except Exception:  # pylint: disable=broad-except
-        pass
-
-    # The items can not be compared with each other (*e.g.*, strings and numbers).
-    try:
-        return sorted(items, key=lambda item: (type(item).__name__, repr(item)))
-    except Exception:  # pylint: disable=broad-except
-        return list(items)
-
-
 class _ReproducibleRepr(reprlib.Repr):
     """
     Represent the values like ``reprlib.Repr``, but independently of the hash seed of the interpreter.
@@ -27,13 +13,29 @@ class _ReproducibleRepr(reprlib.Repr):
     of the iteration otherwise. That order changes from one run of the program to the next.
     """
 
+    def _in_reproducible_order(self, items: Iterable[Any], level: int) -> List[Any]:
+        """
+        Order the items of a set so that the order does not depend on the hash seed of the interpreter.
+
+        The items are ordered by their type and their representation. ``reprlib`` sorts them afterwards if they
+        can be compared; since that sort is stable, the result is reproducible even if the comparison is only
+        a partial order (*e.g.*, for a set of frozen sets, where ``<`` means "is a subset of").
+        """
+        try:
+            return sorted(
+                items,
+                key=lambda item: (type(item).__name__, self.repr1(item, level - 1)),
+            )
+        except Exception:  # pylint: disable=broad-except
+            return list(items)
+
     def repr_set(self, x: Any, level: int) -> str:
         """Represent the set with its items in a reproducible order."""
-        return super().repr_set(_in_reproducible_order(x), level)  # type: ignore
+        return super().repr_set(self._in_reproducible_order(x, level), level)  # type: ignore
 
     def repr_frozenset(self, x: Any, level: int) -> str:
         """Represent the frozen set with its items in a reproducible order."""
-        return super().repr_frozenset(_in_reproducible_order(x), level)  # type: ignore
+        return super().repr_frozenset(self._in_reproducible_order(x, level), level)  # type: ignore
 
 
 # Default representation instance.
